@@ -3934,6 +3934,8 @@ class OptionalNode(ActionSinkNode):
         sub_dfa = self.sub_contents.convert(current_error_handlers)
         if sub_dfa.starting_state in sub_dfa.accepting_states:
             raise IllegalDFAStateError("Ambigious path in optional: should use optional or go to next", sub_dfa.starting_state)
+        if isinstance(sub_dfa.starting_state, DFConditionPoint):
+            raise IllegalASTStateError("The first statement in an optional must match input (it begins with a condition)", self)
 
         if sub_dfa.transitions_pointing_to(sub_dfa.starting_state) and not isinstance(sub_dfa.starting_state, DFConditionPoint):
             # The contents can come back to their first state (e.g. /a*b/). Skipping is only possible before anything was
